@@ -124,6 +124,9 @@ type Vaxis struct {
 	chBg             chan string
 	chColor          chan string
 	userCursorStyle  CursorStyle
+	// modes which were already set when we started are left set on exit
+	keepUnicodeCore bool
+	keepColorTheme  bool
 
 	xtwinops bool
 
@@ -883,6 +886,11 @@ func (vx *Vaxis) handleSequence(seq ansi.Sequence) {
 				}
 				switch seq.Parameters[1][0] {
 				case 1, 2:
+					if seq.Parameters[1][0] == 1 {
+						vx.mu.Lock()
+						vx.keepUnicodeCore = true
+						vx.mu.Unlock()
+					}
 					vx.PostEventBlocking(unicodeCoreCap{})
 				}
 			case 2031:
@@ -892,6 +900,11 @@ func (vx *Vaxis) handleSequence(seq ansi.Sequence) {
 				}
 				switch seq.Parameters[1][0] {
 				case 1, 2:
+					if seq.Parameters[1][0] == 1 {
+						vx.mu.Lock()
+						vx.keepColorTheme = true
+						vx.mu.Unlock()
+					}
 					vx.PostEventBlocking(notifyColorChange{})
 				}
 			}
@@ -1305,10 +1318,10 @@ func (vx *Vaxis) disableModes() {
 	if vx.caps.sixels {
 		_, _ = vx.tw.WriteString(decrst(sixelScrolling))
 	}
-	if vx.caps.unicodeCore && !vx.caps.explicitWidth {
+	if vx.caps.unicodeCore && !vx.caps.explicitWidth && !vx.keepUnicodeCore {
 		_, _ = vx.tw.WriteString(decrst(unicodeCore))
 	}
-	if vx.caps.colorThemeUpdates {
+	if vx.caps.colorThemeUpdates && !vx.keepColorTheme {
 		_, _ = vx.tw.WriteString(decrst(colorThemeUpdates))
 	}
 	if vx.caps.osc176 {
